@@ -10,7 +10,8 @@ Record case := mksy {
   y_unknown : bool;         (* pool.CountWorkers()[StateUnknown] > 0 *)
   y_qupd : Z;               (* the threshold returned by queue.Entries() *)
   y_latch : list N;         (* uuids with an operation in flight (sch.uuidOp) *)
-  y_now : list (N * cstate);(* what queue.Get answers when the spawned goroutines run *)
+  y_now : list (N * (cstate * Z));  (* what queue.Get answers when the spawned goroutines run: state, priority *)
+  y_run_now : rmap;         (* pool.Running() at that moment *)
   o_cancel : list N;        (* queue.Cancel calls *)
   o_kill : list N;          (* pool.KillContainer calls *)
   o_pforget : list N;       (* pool.ForgetContainer calls *)
@@ -36,9 +37,13 @@ Record SyncSpec (c : case) : Prop := {
             (dead (y_running c) (y_qupd c) (e_uuid e) \/ (rlook (e_uuid e) (y_running c) = None /\ y_unknown c = false)) ->
             In (e_uuid e) (o_cancel c);
   ss_requeue : forall e, In e (y_ents c) -> e_state e = Locked -> ~ In (e_uuid e) (y_latch c) ->
-            dead (y_running c) (y_qupd c) (e_uuid e) -> nlook (e_uuid e) (y_now c) = Some Locked -> In (e_uuid e) (o_unlock c);
-  (* F21 (fixed): nothing is unlocked that the queue does not show Locked any more when the goroutine runs *)
-  ss_unlock_locked : forall u, In u (o_unlock c) -> nlook u (y_now c) = Some Locked;
+            dead (y_running c) (y_qupd c) (e_uuid e) ->
+            still_locked (y_now c) (e_uuid e) = true -> reason_holds (y_now c) (y_run_now c) (e_uuid e) = true ->
+            In (e_uuid e) (o_unlock c);
+  (* F21 (fixed): nothing is unlocked that the queue does not show Locked any more when the goroutine runs, or
+     whose reason (crunch-run exited / not running with priority 0) no longer holds *)
+  ss_unlock_locked : forall u, In u (o_unlock c) ->
+            still_locked (y_now c) u = true /\ reason_holds (y_now c) (y_run_now c) u = true;
   (* a process of a container that is not in the queue at all is killed *)
   ss_orphan : forall u t, rlook u (y_running c) = Some t -> ~ In u (map e_uuid (y_ents c)) ->
             ~ In u (y_latch c) -> In u (o_kill c)
@@ -59,9 +64,9 @@ Definition spec_b (c : case) : bool :=
     ((negb (live_b (y_running c) u && finished_b e) || memN u (o_kill c)) &&
      (negb (cstate_eqb (e_state e) Running &&
             (dead_b (y_running c) (y_qupd c) u || (absent_b (y_running c) u && negb (y_unknown c)))) || memN u (o_cancel c)) &&
-     (negb (cstate_eqb (e_state e) Locked && dead_b (y_running c) (y_qupd c) u && still_locked (y_now c) u) || memN u (o_unlock c))))
+     (negb (cstate_eqb (e_state e) Locked && dead_b (y_running c) (y_qupd c) u && still_locked (y_now c) u && reason_holds (y_now c) (y_run_now c) u) || memN u (o_unlock c))))
     (y_ents c) &&
-  forallb (still_locked (y_now c)) (o_unlock c) &&
+  forallb (fun u => still_locked (y_now c) u && reason_holds (y_now c) (y_run_now c) u) (o_unlock c) &&
   forallb (fun kv => memN (fst kv) (map e_uuid (y_ents c)) || memN (fst kv) (y_latch c) || memN (fst kv) (o_kill c))
           (y_running c).
 
@@ -81,7 +86,7 @@ Definition model_b (c : case) : bool :=
   same_set (o_cancel c) (pick (fun a => match a with ACancel u => Some u | _ => None end) acts) &&
   same_set (o_kill c) (pick (fun a => match a with AKill u => Some u | _ => None end) acts) &&
   same_set (o_pforget c) (pick (fun a => match a with AKill u => Some u | _ => None end) acts) &&
-  same_set (o_unlock c) (sync_unlocks acts (y_now c)) &&
+  same_set (o_unlock c) (sync_unlocks acts (y_now c) (y_run_now c)) &&
   same_set (o_qforget c) (pick (fun a => match a with AForget u => Some u | _ => None end) acts).
 
 Definition check_case (c : case) : N :=
